@@ -14,7 +14,7 @@ use super::load_error::{LoadError, LoadErrorImpl, load_error};
 use super::metadata::{MetadataField, ModelMetadata};
 use super::{Model, ModelOptions, OptimizeMode};
 use crate::constant_storage::{ArcSlice, ArcTensorView, ConstantStorage};
-use crate::graph::{CaptureEnv, ConstantNodeData, Dimension, Graph, NodeId};
+use crate::graph::{CaptureEnv, ConstantNodeData, Dimension, Graph, Node, NodeId};
 use crate::op_registry::rten_registry::{OpLoadContext, convert_dtype};
 use crate::op_registry::{OpRegistry, ReadOpError};
 use crate::optimize::GraphOptimizer;
@@ -259,7 +259,10 @@ fn add_graph_operator(
                 continue;
             }
             let index_usize = node_index as usize;
-            if let Some(node_id) = node_id_from_index.get(&index_usize) {
+            // Inputs must refer to value or constant nodes.
+            if let Some(node_id) = node_id_from_index.get(&index_usize)
+                && !matches!(graph.get_node(*node_id), Some(Node::Operator(_)))
+            {
                 inputs.push(Some(*node_id))
             } else {
                 return Err(load_error!(GraphError, name, "operator input is invalid"));
@@ -275,7 +278,10 @@ fn add_graph_operator(
                 continue;
             }
             let index_usize = node_index as usize;
-            if let Some(node_id) = node_id_from_index.get(&index_usize) {
+            // Outputs must refer to value nodes.
+            if let Some(node_id) = node_id_from_index.get(&index_usize)
+                && matches!(graph.get_node(*node_id), Some(Node::Value(_)))
+            {
                 outputs.push(Some(*node_id))
             } else {
                 return Err(load_error!(GraphError, name, "operator output is invalid"));
